@@ -195,7 +195,7 @@ def g_hp_inputs(fn):
                     return (([R == q] if v.status == 'unsat' else []), g)
                 _decide_paths(out, 'O1/O3', '%s%s: accepted, and the result denotes the same angle within 1e-8"' % (tag, ' (negative)' if neg else ''), paths, pred,
                               'O1:%s:%s' % (fn, 'beyond512' if lo >= 512 else 'below512'), _witness_args(fn, 'hp-valid' + ('-neg' if neg else '')), tier)
-            if fn in ('hp2dec', 'HPAngle'):
+            if fn in ('hp2dec', 'HPAngle') and hi > F(6, 1000):      # (below 0.006 no HP value has a minutes or seconds field of 60 or more)
                 def run_bad():
                     f, x = hp_input(lo, hi, tier, False)
                     return f, x, _call(A, fn, x)
